@@ -230,6 +230,9 @@ exprassign(struct expr *e, struct type *t)
 			error(&tok.loc, "assignment to bool must be from arithmetic, pointer, or nullptr_t type");
 		break;
 	case TYPEPOINTER:
+		/* any integer constant expression with value 0 is a null pointer constant */
+		if (et->prop & PROPINT)
+			e = eval(e);
 		if (nullpointer(e) || et->kind == TYPENULLPTR)
 			break;
 		if (et->kind != TYPEPOINTER)
@@ -240,6 +243,8 @@ exprassign(struct expr *e, struct type *t)
 			error(&tok.loc, "assignment to pointer discards qualifiers");
 		break;
 	case TYPENULLPTR:
+		if (et->prop & PROPINT)
+			e = eval(e);
 		if (!nullpointer(e) && et->kind != TYPENULLPTR)
 			error(&tok.loc, "assignment to nullptr_t must be from null pointer constant or expression with type nullptr_t");
 		break;
